@@ -122,6 +122,21 @@ func runC12Stream(ops []c12Op) (trace []string, finalClosed []int, findings []Mo
 			handles = append(handles, h)
 			openN++
 			trace = append(trace, fmt.Sprintf("OAcquire %d", len(handles)-1))
+		case "failacquire":
+			// an acquisition that fails at bind (somebody else holds the address); possible only
+			// while no handle is open. It must leave nothing behind: no reference, no socket.
+			if openN != 0 {
+				continue
+			}
+			own, err := net.Listen("tcp", addr)
+			if err != nil {
+				continue
+			}
+			if h, err := mgr.ListenStream(addr); err == nil {
+				h.Close()
+				findings = append(findings, MonitorFinding{"C12/harness", "ListenStream succeeded on an address held by another socket", ops})
+			}
+			own.Close()
 		case "dial":
 			c, err := net.DialTimeout("tcp", addr, 300*time.Millisecond)
 			if err != nil {
@@ -346,10 +361,15 @@ func c12(ctx *Ctx) {
 	for i := range jobs {
 		nops := r.Range(3, 14)
 		var ops []c12Op
+		if r.Chance(25) {
+			ops = append(ops, c12Op{Kind: "failacquire"})
+		}
 		ops = append(ops, c12Op{Kind: "acquire"})
 		nh := 1
 		for j := 0; j < nops; j++ {
 			switch c := r.Intn(100); {
+			case c < 6:
+				ops = append(ops, c12Op{Kind: "failacquire"})
 			case c < 15 && nh < 5:
 				ops = append(ops, c12Op{Kind: "acquire"})
 				nh++
